@@ -29,7 +29,7 @@ Definition osum_eqb (a b : osum) : bool :=
 (* what a sent submessage shows of itself; None: not listed (INFO_*, HEARTBEAT) or unreadable *)
 Definition project (m : psub) : list osum :=
   match m with
-  | AckNack _ r w st c => match snset_members st with Ok ms => [OAck r w (ss_base st) ms c] | _ => [] end
+  | AckNack _ r w st c => [OAck r w (ss_base st) (sn_members st) c]
   | NackFrag r w s fs c => match fnset_members fs with Ok ms => [ONackFrag r w s (fs_base fs) ms c] | _ => [] end
   | Data _ _ _ _ r w s _ p => [OData r w s (len p)]
   | DataFrag _ _ _ r w s fst _ _ _ _ p => [ODataFrag r w s fst (len p)]
@@ -98,34 +98,5 @@ Fixpoint obs_fine (ds : list (list Z)) (os : list obs) : bool :=
 Definition C06_oracle_ok (c : C06_case) : bool :=
   obs_fine (map X (c6_dgrams c)) (c6_obs c) && negb (c6_probe c =? 0).
 
-(* --------------------------------------------------------- known classes
-   keyed by the panic site (file) / HANG and the trigger found in the datagrams handled so far *)
-Definition any_sub (f : psub -> bool) (ds : list (list Z)) : bool := existsb (fun d => existsb f (subs_of d)) ds.
-Definition fnset_site (s : Z) : bool := (s =? 60151) || (s =? 60152).
-(* a DATA / DATA_FRAG hands a payload to the DCPS code behind the readers (outside this model) *)
-Definition carries_payload (m : psub) : bool := is_data m.
-Fixpoint classify (seen : list (list Z)) (ds : list (list Z)) (os : list obs) : N :=
-  match ds, os with
-  | d :: ds', OOk peak _ :: os' =>
-      if peak <=? ALLOC_C * len d + ALLOC_K then classify (d :: seen) ds' os'
-      else if any_sub carries_payload [d] then 9%N else 0%N
-  | d :: _, OOom _ :: _ => if any_sub carries_payload [d] then 9%N else 0%N
-  | d :: _, OPanic s :: _ =>
-      let cur := [d] in let all := d :: seen in
-      if fnset_site s then (if is_panic (parse_message d) then 8%N else 0%N)
-      else if site_file s =? 1 then (if any_sub k_inforeply cur then 1%N else 0%N)
-      else if site_file s =? 6 then (if any_sub k_set_max cur then 3%N else 0%N)
-      else if site_file s =? 5 then
-        (if any_sub k_acknack_min cur then 4%N else if any_sub k_set_max cur then 3%N
-         else if any_sub k_sn_max cur then 6%N else 0%N)
-      else if site_file s =? 7 then (if any_sub carries_payload cur then 10%N else 0%N)
-      else if (site_file s =? 3) || (site_file s =? 4) then
-        (if any_sub k_hb_min all then 5%N else if any_sub k_sn_max all then 6%N
-         else if any_sub k_set_max all then 3%N else 0%N)
-      else 0%N
-  | d :: _, OHang :: _ =>
-      if any_sub k_gap_range [d] then 2%N else if any_sub k_frag_count (d :: seen) then 7%N
-      else if any_sub carries_payload [d] then 9%N else 0%N
-  | _, _ => 0%N
-  end.
-Definition C06_known (c : C06_case) : N := classify [] (map X (c6_dgrams c)) (c6_obs c).
+(* no known class is left: every rejected case is a violation *)
+Definition C06_known (c : C06_case) : N := 0%N.
